@@ -722,6 +722,60 @@ fn c04_extras(rep: &mut Report, judge: &Judge, _thorough: bool) {
             out
         });
         rep.add(sec);
+        // a SubjectPublicKeyInfo that arrives from outside in a non-canonical encoding (which the parser may well accept):
+        // whatever certificate is then issued for it is strict DER, or the input is refused
+        let issuer = stub_issuer_ctx(Alg::EcP256, &DnSpec::cn("issuer"), &KeyIdSpec::Sha256, Alg::Ed25519, "pair");
+        let spkis: Vec<&ZooKey> = [KeyKind::Ed25519, KeyKind::P256, KeyKind::P384, KeyKind::Rsa2048].iter().filter_map(|k| zoo.iter().find(|z| z.kind == *k && z.format == KeyFormat::Pkcs8 && z.name.contains("_1"))).collect();
+        let mut cases: Vec<(String, Vec<u8>)> = Vec::new();
+        for z in &spkis {
+            cases.push((format!("{} unmutated", z.name), z.spki.clone()));
+            for (m, l) in explore::edits::tlv_mutants(&z.spki) {
+                cases.push((format!("{} {}", z.name, l), m));
+            }
+            // every length octet written in the long form with one octet, and the outer length with two
+            let mut long1 = z.spki.clone();
+            if long1[1] < 0x80 {
+                long1.insert(1, 0x81);
+                cases.push((format!("{} outer length as 81 nn", z.name), long1));
+            }
+            let n = z.spki.len() - if z.spki[1] < 0x80 { 2 } else { 2 + (z.spki[1] & 0x7f) as usize };
+            let mut long2 = vec![0x30, 0x82, (n >> 8) as u8, n as u8];
+            long2.extend_from_slice(&z.spki[z.spki.len() - n..]);
+            cases.push((format!("{} outer length as 82 nn nn", z.name), long2));
+        }
+        let sec = Section::new("spki-import/edits", &format!("{} encodings of four fixture SubjectPublicKeyInfos (unmutated, every TLV-tree edit incl. non-minimal and oversized lengths, the outer length in its long forms) through SubjectPublicKeyInfo::from_der; each accepted one is certified (signed_by) and the certificate and the value's own der_bytes / algorithm are judged", cases.len()));
+        run::sweep_cases(&sec, &cases, &|c| c.0.clone(), &|c| {
+            let mut out = Outcome::default();
+            out.digest = fnv(&c.1);
+            out.transitions = 1;
+            let parsed = match guarded(|| rcgen::SubjectPublicKeyInfo::from_der(&c.1)) {
+                Err(p) => {
+                    out.unexpected_err = Some(format!("panic: {}", p));
+                    return out;
+                }
+                Ok(Err(_)) => return out,
+                Ok(Ok(p)) => p,
+            };
+            let mut st = CertState::default();
+            st.serial = Some(vec![3]);
+            let params = crate::glue::to_params(&st).unwrap();
+            let i = issuer.issuer.as_ref().unwrap();
+            match guarded(|| params.signed_by(&parsed, &i.cert, &i.key)) {
+                Ok(Ok(cert)) => {
+                    out.transitions += 1;
+                    let d = refmodel::x509::decode_cert(cert.der());
+                    out.findings.extend(d.findings.into_iter().filter(|f| crate::certeval::relevant("C04", f)));
+                    if d.value.is_none() {
+                        out.findings.push(Finding::new("DECODE-FAILED", "certificate for an imported SubjectPublicKeyInfo", "the strict decoder cannot read it"));
+                    }
+                }
+                Ok(Err(_)) => {}
+                Err(p) => out.unexpected_err = Some(format!("panic: {}", p)),
+            }
+            out.findings.dedup_by(|a, b| a.sig() == b.sig());
+            out
+        });
+        rep.add(sec);
     }
 }
 
@@ -774,9 +828,23 @@ fn c05_extras(rep: &mut Report, judge: &Judge, thorough: bool) {
     let issuer = stub_issuer_ctx(Alg::EcP256, &DnSpec::cn("issuer"), &KeyIdSpec::Sha256, Alg::Ed25519, "pair");
     let sec = Section::new("sweep/auto-serial-classes", "subject keys realising every (first hash byte, high bit of second byte) class of the automatic serial, and the classes whose hash starts 00 00 / 80 00 with either high bit in the third octet (thorough: 00 00 00 too); self- and issuer-signed");
     let kids: Vec<KeyIdSpec> = std::iter::once(KeyIdSpec::Sha256).chain(key_id_values().into_iter().filter(|(l, _)| !l.starts_with("nc:")).map(|(_, k)| k)).collect();
-    let cases: Vec<(Vec<u8>, bool, usize)> = keys.iter().flat_map(|k| (0..kids.len()).flat_map(move |m| [(k.clone(), false, m), (k.clone(), true, m)])).collect();
-    run::sweep_cases(&sec, &cases, &|c| format!("key={:02x?} issuer_signed={} key_id={:?}", &c.0[..8], c.1, kids[c.2]), &|c| {
+    let mut cases: Vec<(Vec<u8>, bool, usize)> = keys.iter().flat_map(|k| (0..kids.len()).flat_map(move |m| [(k.clone(), false, m), (k.clone(), true, m)])).collect();
+    // ... and one key in two roles: the subject key is also the key of the issuer, which goes by another name (self-issued);
+    // the marker usize::MAX selects that context below (SHA-256 key identifiers)
+    cases.extend(keys.iter().map(|k| (k.clone(), true, usize::MAX)));
+    run::sweep_cases(&sec, &cases, &|c| format!("key={:02x?} issuer_signed={} key_id={:?}", &c.0[..8], c.1, kids.get(c.2)), &|c| {
         let mut st = CertState::default();
+        if c.2 == usize::MAX {
+            // the issuer holds the same key under another name
+            let (ikp, _l) = stub_key(Alg::Ed25519, &c.0);
+            let own = make_issuer(&DnSpec::cn("the same key under another name"), &KeyIdSpec::Sha256, &[], ikp, KeyPub { alg: Alg::Ed25519, raw: c.0.clone() }).expect("issuer");
+            let (kp, log) = stub_key(Alg::Ed25519, &c.0);
+            let ctx = Ctx { label: "self-issued".into(), issuer: None, subject: SubjectSrc::Pair(kp), subject_pub: KeyPub { alg: Alg::Ed25519, raw: c.0.clone() }, log: Some(log) };
+            let (kp2, _l2) = stub_key(Alg::Ed25519, &c.0);
+            let ictx = Ctx { label: "issuer holding the subject's key".into(), issuer: Some(own), subject: SubjectSrc::Pair(kp2), subject_pub: KeyPub { alg: Alg::Ed25519, raw: c.0.clone() }, log: None };
+            let ev = eval_with_issuer(&st, &ctx, &ictx);
+            return finish_outcome(judge, &st, ev);
+        }
         st.key_id = kids[c.2].clone();
         if c.1 {
             let ctx = Ctx { label: "issuer".into(), issuer: None, subject: SubjectSrc::Custom(CustomPub { raw: c.0.clone(), alg: rc_alg(Alg::Ed25519).unwrap() }), subject_pub: KeyPub { alg: Alg::Ed25519, raw: c.0.clone() }, log: None };
